@@ -19,7 +19,7 @@ EXPLANATION = (
     "2**digits-1 for three widths and checks the big-endian store order (counter or descending range). C19.6 parses the four "
     "type-inference regexes (character-class chain bool<int<float<complex, test order, fall-through None) and interprets str2array for "
     "the 5 x 5 (inferred class, dtype) table: ValueError for unmatched text, i->j before complex parsing, separators, token-wise vs "
-    "digit-wise dispatch of 0/1 text, explicit dtype applied last, digit-wise conversion by parsing not by code-point arithmetic. "
+    "digit-wise dispatch of 0/1 text, explicit dtype applied last, digit-wise conversion by parsing not by code-point arithmetic, parsed rows keep their axes (no squeeze/ravel). "
     "Decided: these structural clauses (necessary conditions); not decided: floating-point round-trips, printed precision.")
 TRUSTED = ["CPython ast", "numpy log10/power semantics", "re._parser character classes", "scipy.special.erfc"]
 
